@@ -55,7 +55,7 @@ TARGETS = [
     ("chipfiring/CFDivisor.py", "CFDivisor", "__add__"), ("chipfiring/CFDivisor.py", "CFDivisor", "__sub__"),
     ("chipfiring/CFGraph.py", "CFGraph", "is_loopless"), ("chipfiring/CFGraph.py", "CFGraph", "get_valence"), ("chipfiring/CFGraph.py", "CFGraph", "add_edge"),
     ("chipfiring/CFGraph.py", "CFGraph", "add_edges"), ("chipfiring/CFGraph.py", "CFGraph", "__init__"),
-    ("chipfiring/CFiringScript.py", "CFiringScript", "get_firings"), ("chipfiring/CFiringScript.py", "CFiringScript", "set_firings"),
+    ("chipfiring/CFiringScript.py", "CFiringScript", "__init__"), ("chipfiring/CFiringScript.py", "CFiringScript", "get_firings"), ("chipfiring/CFiringScript.py", "CFiringScript", "set_firings"),
     ("chipfiring/CFiringScript.py", "CFiringScript", "update_firings"),
     ("chipfiring/CFConfig.py", "CFConfig", "get_out_degree_S"),
     ("chipfiring/CFOrientation.py", "CFOrientation", "set_orientation"), ("chipfiring/CFOrientation.py", "CFOrientation", "check_fullness"),
@@ -66,7 +66,7 @@ TARGETS = [
 ]
 class Unsupported(Exception): pass
 def bad(node, why=""): raise Unsupported("%s at line %s: %s" % (type(node).__name__, getattr(node, "lineno", "?"), why))
-COQTY = {"pairs": "(list (nat * Z))", "keys": "(list nat)", "divobj": "(dictZ * Z)", "optbool": "(option bool)", "optpair": "(option (nat * nat))", "key": "nat", "Z": "Z", "bool": "bool", "dictZ": "dictZ", "dictD": "dictD", "set": "list nat", "edges": "list (nat * nat * Z)"}
+COQTY = {"optdict": "(option dictZ)", "pairs": "(list (nat * Z))", "keys": "(list nat)", "divobj": "(dictZ * Z)", "optbool": "(option bool)", "optpair": "(option (nat * nat))", "key": "nat", "Z": "Z", "bool": "bool", "dictZ": "dictZ", "dictD": "dictD", "set": "list nat", "edges": "list (nat * nat * Z)"}
 def ann_type(a):
     s = ast.unparse(a)
     if s == "int": return "Z"
@@ -77,6 +77,7 @@ def ann_type(a):
     if s == "OrientationState": return "Z"
     if s in ("List[Tuple[str, int]]", "typing.List[typing.Tuple[str, int]]"): return "pairs"
     if s == "CFGraph": return "graphobj"
+    if s in ("Optional[typing.Dict[str, int]]", "typing.Optional[typing.Dict[str, int]]", "Optional[Dict[str, int]]"): return "optdict"
     if s in ("'CFDivisor'", '"CFDivisor"', "CFDivisor"): return "divparam"
     if s in ("Set[str]", "typing.Set[str]", "typing.Set[typing.str]"): return "set"
     raise Unsupported("annotation " + s)
@@ -89,6 +90,8 @@ class Fn:
         self.bookkeeping = {"seen_edges", "edge"} if (cls, node.name) == ("CFGraph", "add_edges") else set()
     def fresh(self, p="t"): self.tmp += 1; return "%s%d_" % (p, self.tmp)
     def field(self, e, write=False):
+        if getattr(self, "graph_alias", False) and not write and ast.unparse(e) in ("self.graph.vertices", "self.graph.graph"):
+            return "graph_" + ast.unparse(e).rsplit(".", 1)[1], ("set" if ast.unparse(e).endswith("vertices") else "dictD")
         f = FIELDS[self.cls].get(ast.unparse(e))
         if not f: return None
         if f[0] not in self.reads: self.reads.append(f[0])
@@ -326,7 +329,7 @@ class Fn:
                 and s.value.func.value.id in self.bookkeeping and len(s.value.args) == 1 and isinstance(s.value.args[0], ast.Name) and s.value.args[0].id in self.bookkeeping: return K()
         if isinstance(s, ast.AnnAssign) and s.value is not None and s.simple == 0:
             s = ast.copy_location(ast.Assign(targets=[s.target], value=s.value), s); u = ast.unparse(s)
-        if isinstance(s, ast.Assign) and u == "self.graph = graph" and self.node.name == "__init__" and self.env.get("graph") == "graphobj": return K()      # the new object's graph IS the argument
+        if isinstance(s, ast.Assign) and u == "self.graph = graph" and self.node.name == "__init__" and self.env.get("graph") == "graphobj": self.graph_alias = True; return K()      # the new object's graph IS the argument
         if isinstance(s, ast.Raise): self.can_raise = True; return "EXN_"
         if isinstance(s, ast.Return):
             if s.value is None: bad(s, "bare return")
@@ -463,6 +466,11 @@ class Fn:
                 self.can_raise = True
                 return self.wrap("match (if %s then\n  %s\n  else\n  %s) with PyExn e_ => PyExn e_ | PyOk %s =>\n  %s end" % (c, a.replace("JOIN_", "PyOk %s" % st), b.replace("JOIN_", "PyOk %s" % st), st, body))
             return self.wrap("let %s := (if %s then\n  %s\n  else\n  %s) in\n  %s" % (pat, c, a.replace("JOIN_", st), b.replace("JOIN_", st), body))
+        if isinstance(s, ast.If) and not s.orelse and isinstance(s.test, ast.Compare) and len(s.test.ops) == 1 and isinstance(s.test.ops[0], ast.IsNot) and isinstance(s.test.left, ast.Name) \
+                and self.env.get(s.test.left.id) == "optdict" and isinstance(s.test.comparators[0], ast.Constant) and s.test.comparators[0].value is None:
+            x = s.test.left.id; pre = self.pending; self.pending = []; env0 = dict(self.env); self.env[x] = "dictZ"
+            a = self.stmts(s.body, K); self.env = env0; b = K(); self.pending = pre
+            return self.wrap("match %s with Some %s =>\n  %s\n  | None =>\n  %s end" % (x, x, a, b))
         if isinstance(s, ast.If):
             self.in_test = isinstance(s.test, ast.Name); c, tc = self.expr(s.test); self.in_test = False
             if tc != "bool": bad(s, "condition of type " + tc)
@@ -551,6 +559,9 @@ class Fn:
         r_ = ast.unparse(n.returns) if n.returns is not None else ""
         self.opt_ret = {"typing.Optional[bool]": "optbool", "Optional[bool]": "optbool", "typing.Optional[typing.Tuple[str, str]]": "optpair", "Optional[Tuple[str, str]]": "optpair"}.get(r_)
         if n.args.vararg or n.args.kwarg or n.args.kwonlyargs or n.decorator_list: bad(n, "signature")
+        for a_, d_ in zip(n.args.args[len(n.args.args) - len(n.args.defaults):], n.args.defaults):
+            # (a default only matters to callers that omit the argument; an Optional dictionary must default to None, its only other value being a dictionary)
+            if a_.annotation is not None and "Optional" in ast.unparse(a_.annotation) and not (isinstance(d_, ast.Constant) and d_.value is None): bad(n, "default value of " + a_.arg)
         for a in n.args.args:
             if a.arg == "self": continue
             if a.annotation is None: bad(a, "parameter without annotation")
